@@ -34,7 +34,7 @@ EXTENDS Integers, Sequences, FiniteSets, TLC, Json
 
 CONSTANTS TPD, TPM, SUB, WD0,   \* units, see ScheduleCore
           TPH,                  \* ticks per hour (only used to place cases and shapes)
-          Cases,                \* set of case records (see MkCase)
+          Cases,                \* sequence of case records (see MkCase)
           AllInstants,          \* TRUE: every instant of the window
           Emit                  \* "rows": print the table, "count": sizes only
 
@@ -75,7 +75,7 @@ Tr(L, b, nb) == << [at |-> At(L, b), off |-> nb] >>
 H(x) == x * Hour
 Q(x) == x * (TPH \div 4)      \* quarters of an hour
 
-MCCases == {
+MCCases == <<
     \* ---- ordinary days: UTC, whole-hour, +hh:30, +hh:45, -hh:30
     MkCase("utc",        "utc",     "ordinary", 0,      <<>>, At(H(12), 0), TPD),
     MkCase("plus3",      "hour",    "ordinary", H(3),   <<>>, At(H(12), 0), TPD),
@@ -101,7 +101,7 @@ MCCases == {
     MkCase("mid-back01",  "dst-north", "midnight", -H(4), Tr(H(1), -H(4), -H(5)), At(H(1), -H(4)), H(25)),
     \* ---- a skipped civil day (date-line change, +24 h at 24:00)
     MkCase("dayskip",     "hour", "midnight", -H(10), Tr(0, -H(10), H(14)), At(0, -H(10)), TPD)
-}
+>>
 
 \* -------------------------------------------------------------------- shapes
 Min(a, b) == IF a < b THEN a ELSE b
@@ -220,7 +220,7 @@ NoSer == [d |-> 0, r |-> Absent, fill |-> "none", verdicts |-> {}]
 Init == st = "start" /\ cs = NoCase /\ sh = NoShape /\ out = <<>> /\ ser = NoSer
 
 PickCase == /\ st = "start"
-            /\ \E c \in Cases : cs' = c
+            /\ \E i \in DOMAIN Cases : cs' = Cases[i]
             /\ st' = "case"
             /\ UNCHANGED <<sh, out, ser>>
 
